@@ -105,10 +105,33 @@ func (fr *frame) toSym(x value, k types.BasicKind) sym {
 	panic(fmt.Sprintf("toSym: cannot lift %T to kind %v", x, k))
 }
 
+func isIntSort(v value) bool {
+	s, ok := v.(sym)
+	return ok && s.T.Sort.K == smt.KInt
+}
+
+// intTerm returns the mathematical-integer term of an integer value (Int-sorted symbol, BV symbol or concrete).
+func (fr *frame) intTerm(v value) *smt.Term {
+	st := fr.p.st
+	if s, ok := v.(sym); ok {
+		if s.T.Sort.K == smt.KInt {
+			return s.T
+		}
+		if kindSigned(s.K) {
+			fr.unmodelled("mixing a signed bit-vector symbol with a mathematical integer symbol")
+		}
+		return st.Bv2Nat(s.T)
+	}
+	return st.IntC(asInt64(v))
+}
+
 // fromTerm converts a constant term back into a native Go value of kind k; otherwise wraps it.
 func fromTerm(t *smt.Term, k types.BasicKind) value {
 	if !t.IsConst() {
 		return sym{t, k}
+	}
+	if t.Sort.K == smt.KInt {
+		t = &smt.Term{Op: smt.OConst, Sort: smt.BV(64), U: uint64(t.I)}
 	}
 	switch k {
 	case types.Bool:
@@ -256,6 +279,33 @@ func binop(fr *frame, op token.Token, t types.Type, x, y value) value {
 			sat = st.BVC(w, 0)
 		}
 		return fromTerm(st.Ite(over, sat, r), kx)
+	}
+	if isIntSort(x) || isIntSort(y) {
+		// mathematical integers (string lengths and indexes): linear integer arithmetic, no wrap-around modelled
+		k := kindOfValue(x)
+		if !okx {
+			k = kindOfValue(y)
+		}
+		a, b := fr.intTerm(x), fr.intTerm(y)
+		switch op {
+		case token.ADD:
+			return fromTerm(st.IntBin(smt.OIntAdd, a, b), k)
+		case token.SUB:
+			return fromTerm(st.IntBin(smt.OIntSub, a, b), k)
+		case token.EQL:
+			return fromTerm(st.Eq(a, b), types.Bool)
+		case token.NEQ:
+			return fromTerm(st.Not(st.Eq(a, b)), types.Bool)
+		case token.LSS:
+			return fromTerm(st.IntBin(smt.OIntLt, a, b), types.Bool)
+		case token.LEQ:
+			return fromTerm(st.IntBin(smt.OIntLe, a, b), types.Bool)
+		case token.GTR:
+			return fromTerm(st.IntBin(smt.OIntLt, b, a), types.Bool)
+		case token.GEQ:
+			return fromTerm(st.IntBin(smt.OIntLe, b, a), types.Bool)
+		}
+		fr.unmodelled("operator %s on a mathematical integer symbol (string length/index)", op)
 	}
 	var k types.BasicKind
 	if okx {
@@ -486,6 +536,12 @@ func conv(fr *frame, tDst, tSrc types.Type, x value) value {
 		}
 		fr.unmodelled("conversion of symbolic string to %s", tDst)
 	}
+	if sx.T.Sort.K == smt.KInt {
+		if kindWidth(kd) > 0 {
+			return sym{sx.T, kd}
+		}
+		fr.unmodelled("conversion of a mathematical integer symbol to %s", tDst)
+	}
 	ws, wd := kindWidth(sx.K), kindWidth(kd)
 	if ws == 0 || wd == 0 {
 		fr.unmodelled("conversion of symbolic %v to %s", sx.K, tDst)
@@ -556,7 +612,9 @@ func (fr *frame) index(idx value, n int) int {
 		st := fr.p.st
 		w := kindWidth(s.K)
 		var inRange *smt.Term
-		if kindSigned(s.K) {
+		if s.T.Sort.K == smt.KInt {
+			inRange = st.And(st.IntBin(smt.OIntLe, st.IntC(0), s.T), st.IntBin(smt.OIntLt, s.T, st.IntC(int64(n))))
+		} else if kindSigned(s.K) {
 			inRange = st.And(st.BvCmp(smt.OBvSle, st.BVC(w, 0), s.T), st.BvCmp(smt.OBvSlt, s.T, st.BVC(w, uint64(n))))
 		} else {
 			inRange = st.BvCmp(smt.OBvUlt, s.T, st.BVC(w, uint64(n)))
@@ -588,6 +646,9 @@ func (fr *frame) symStrIndex(s sym, idx value) value {
 func sliceOp(fr *frame, x, lo, hi, max value) value {
 	if s, ok := x.(sym); ok {
 		return fr.symSubstr(s, lo, hi)
+	}
+	if cs, ok := x.(string); ok && (isIntSort(lo) || isIntSort(hi)) {
+		return fr.symSubstr(fr.toSym(cs, types.String), lo, hi)
 	}
 	var Len, Cap int
 	switch x := x.(type) {
@@ -832,7 +893,7 @@ func callBuiltin(caller *frame, callpos token.Pos, fn *ssa.Builtin, args []value
 			return len(x)
 		case sym:
 			st := fr.p.st
-			return fromTerm(st.Int2Bv(st.StrOp(smt.OStrLen, smt.Int, x.T), 64), types.Int)
+			return fromTerm(st.StrOp(smt.OStrLen, smt.Int, x.T), types.Int)
 		case array:
 			return len(x)
 		case *value:
@@ -899,24 +960,31 @@ func callBuiltin(caller *frame, callpos token.Pos, fn *ssa.Builtin, args []value
 
 var _ = bytes.MinRead
 
-// symSubstr is s[lo:hi] on a symbolic string with concrete bounds.
+// symSubstr is s[lo:hi] on a symbolic string (bounds may be symbolic integers).
 func (fr *frame) symSubstr(s sym, lo, hi value) value {
 	st := fr.p.st
 	ln := st.StrOp(smt.OStrLen, smt.Int, s.T)
 	var l *smt.Term = st.IntC(0)
 	if lo != nil {
-		if ls, ok := lo.(sym); ok {
-			l = st.Bv2Nat(ls.T)
-		} else {
-			l = st.IntC(asInt64(lo))
-		}
+		l = fr.intTerm(lo)
 	}
 	h := ln
 	if hi != nil {
-		if hs, ok := hi.(sym); ok {
-			h = st.Bv2Nat(hs.T)
-		} else {
-			h = st.IntC(asInt64(hi))
+		h = fr.intTerm(hi)
+	}
+	// structural cases on a concatenation that starts with a constant
+	if s.T.Op == smt.OStrConcat && s.T.Args[0].IsConst() && l.IsConst() {
+		c0 := s.T.Args[0].S
+		if hi == nil && l.I >= 0 && int(l.I) <= len(c0) {
+			return fromTerm(st.StrConcat(append([]*smt.Term{st.StrC(c0[l.I:])}, s.T.Args[1:]...)...), types.String)
+		}
+		if h.IsConst() && l.I >= 0 && l.I <= h.I && int(h.I) <= len(c0) {
+			return c0[l.I:h.I]
+		}
+	}
+	if l.IsConst() && l.I == 0 {
+		if pre, ok := fr.p.sideTable[fmt.Sprintf("prefix:%d:%d", s.T.ID, h.ID)].(*smt.Term); ok {
+			return fromTerm(pre, types.String)
 		}
 	}
 	okc := st.And(st.IntBin(smt.OIntLe, st.IntC(0), l), st.And(st.IntBin(smt.OIntLe, l, h), st.IntBin(smt.OIntLe, h, ln)))
